@@ -4,7 +4,8 @@
 (* case = [id, graph, root, fault, obs (token sequence of the parsed output), *)
 (*         obs2 (second print, fault-free), log (start/end/hit events),       *)
 (*         residue (ids left in ctx.visited), nwarn (failure warnings)]       *)
-(* ABSTRACT verdict: set of failing clauses; CONCRETE: model = observation.   *)
+(* ABSTRACT verdict: set of failing clauses (output = Unfold, second print,   *)
+(* warnings); CONCRETE: model = observation, nothing left in ctx.visited.     *)
 (***************************************************************************)
 EXTENDS Walk, Json, IOUtils
 
@@ -21,13 +22,13 @@ Bad(c) ==
   LET u == Unfold(c.graph, c.root, c.fault)
       u0 == Unfold(c.graph, c.root, 0)
   IN (IF Toks(c.obs) # u.out THEN {"unfold"} ELSE {})
-     \cup (IF c.residue # 0 THEN {"residue"} ELSE {})
      \cup (IF Toks(c.obs2) # u0.out THEN {"repeat"} ELSE {})
      \cup (IF c.nwarn # (IF c.fault # 0 /\ c.fault <= u.inv THEN 1 ELSE 0) THEN {"warning"} ELSE {})
 
+\* (entries left in ctx.visited after the call are per-call state: unobservable, so only DRIFT)
 Drift(c) ==
   LET m == WRun(c.graph, c.fault, WInit(c.root))
-  IN m.out # Toks(c.obs) \/ [i \in 1..Len(m.log) |-> <<m.log[i][1], m.log[i][2]>>]
+  IN c.residue # 0 \/ m.out # Toks(c.obs) \/ [i \in 1..Len(m.log) |-> <<m.log[i][1], m.log[i][2]>>]
                               # [i \in 1..Len(c.log) |-> <<c.log[i][1], c.log[i][2]>>]
 
 Report == PrintT(<<"DONE", Cases[cs].id, Bad(Cases[cs]), Drift(Cases[cs])>>)
